@@ -807,3 +807,68 @@ func ruleIntegerKeyFlag(c *Check, rule string) {
 	}
 	c.Floor(rule, n, 2, "iterBoth calls in IterUpdate")
 }
+
+// ruleCleanDisappeared (C16-R5b): instances whose snapshots vanished stop being waited for.
+func ruleCleanDisappeared(c *Check, rule string) {
+	sl := findSyncLoop(c, rule)
+	if sl == nil {
+		return
+	}
+	keep := `InstanceSet\)\.(Done|CleanDisappeared)|SeenInstances|OnlyOnce`
+	paths := c.walkRegion(rule, sl.fn, sl.mainHdr, keep, nil)
+	n, bad := 0, 0
+	for i := range paths {
+		p := &paths[i]
+		// on every pass that is still waiting, CleanDisappeared(SeenInstances()) is applied
+		dn := callsOf(p, "syncer.(*InstanceSet).Done")
+		if len(dn) == 0 {
+			continue
+		}
+		d0, f := boolCond(p, dn[0].Res, -1)
+		if !f || d0 {
+			continue
+		}
+		n++
+		cd := callsOf(p, "syncer.(*InstanceSet).CleanDisappeared")
+		si := callsOf(p, "syncer/receiver.(*Receiver).SeenInstances")
+		if !(len(cd) == 1 && len(si) >= 1 && cd[0].Args[1] == si[len(si)-1].Res && cd[0].Args[0] == dn[0].Args[0]) {
+			bad++
+			c.Bad(rule, fnSyncLoop+"/clean-disappeared", "a pass that is still waiting for instances does not remove those that disappeared from the listing (run-once mode would never end when a waited-for snapshot is cleaned or corrupt)", c.pathPos(p), describe(c, p))
+		}
+	}
+	if bad == 0 {
+		c.Ok(rule, fnSyncLoop+"/clean-disappeared", fmt.Sprintf("%d waiting passes apply CleanDisappeared(r.SeenInstances()) to the waiting set", n), c.P.Pos(sl.fn.Pos()))
+	}
+	c.Floor(rule, n, 1, "waiting passes")
+	// CleanDisappeared table: removes exactly the names not in 'seen' (no special case for an empty listing)
+	name := "syncer.(*InstanceSet).CleanDisappeared"
+	fn, cp := c.walkFn(rule, name, WalkConfig{})
+	if cp == nil {
+		return
+	}
+	okc := true
+	nRem := 0
+	for i := range cp {
+		p := &cp[i]
+		if p.End == "return" {
+			// an early return before the scan loops would skip the cleaning
+			scanned := false
+			for _, cd := range p.Conds() {
+				if strings.Contains(cd.Atom.String(), "range(") || strings.Contains(cd.Atom.String(), "rangeindex") {
+					scanned = true
+				}
+			}
+			if !scanned {
+				okc = false
+				c.Bad(rule, name+"/early-return", "CleanDisappeared returns without comparing the set with the listing on some input (e.g. an empty listing)", c.pathPos(p), describe(c, p))
+			}
+		}
+		for _, r := range callsOf(p, "syncer.(*InstanceSet).Remove") {
+			_ = r
+			nRem++
+		}
+	}
+	if okc && nRem > 0 {
+		c.Ok(rule, name, "every call compares the whole waiting set with the listing and removes the missing names; there is no early exit", c.P.Pos(fn.Pos()))
+	}
+}
